@@ -20,6 +20,7 @@ package main
 import (
 	"fmt"
 	"strings"
+	"time"
 
 	"github.com/blinklabs-io/gouroboros/cbor"
 	"github.com/blinklabs-io/gouroboros/ledger/babbage"
@@ -32,7 +33,7 @@ import (
 )
 
 func init() {
-	register(&Prop{ID: "C03", Gen: genC03, Run: runC03})
+	register(&Prop{ID: "C03", Gen: genC03, Run: runC03, Timeout: 60 * time.Second})
 }
 
 type sumVariant struct {
@@ -44,6 +45,54 @@ type sumType struct {
 	name     string
 	decode   func(b []byte) (string, error)
 	variants []sumVariant
+	// nested sums: the tagged list sits at `path` (array item indices) inside the
+	// decoder's input, which `wrap` builds around it; nil = the input is the list itself
+	path []int
+	wrap func(list *cnode) *cnode
+	// other items of the input that select this decoder's table (era id, enclosing tag)
+	guards []sumGuard
+	// variant the decoder produces for a tag it does not know ("" = an error)
+	deflt string
+	// tags (probed types only) for which no candidate body decoded: nothing is predicted
+	unsure []uint64
+}
+
+type sumGuard struct {
+	path []int
+	val  uint64
+}
+
+// build returns the decoder input for a variant and the tagged list inside it
+func (st *sumType) build(v sumVariant) (root, list *cnode) {
+	list = cA(append([]*cnode{cU(v.id)}, v.body()...)...)
+	if st.wrap == nil {
+		return list, list
+	}
+	return st.wrap(list), list
+}
+
+// g10aNav returns the bytes of the item at `path` inside the first item of b
+func g10aNav(b []byte, path []int) ([]byte, bool) {
+	if len(path) == 0 {
+		return b, true
+	}
+	t, _, err := cparse(b)
+	if err != nil {
+		return nil, false
+	}
+	for _, i := range path {
+		if t.major != 4 || i >= len(t.kids) {
+			return nil, false
+		}
+		t = t.kids[i]
+	}
+	return t.bytes(), true
+}
+
+// vok for a sum op: does Decode into cbor.Value accept the bytes of the tagged list
+func (st *sumType) vok(b []byte) bool {
+	sub, ok := g10aNav(b, st.path)
+	return ok && valueOk(sub)
 }
 
 func tname(v any) string {
@@ -284,10 +333,6 @@ func sumTypeByName(n string) *sumType {
 	return nil
 }
 
-func (v sumVariant) node() *cnode {
-	return cA(append([]*cnode{cU(v.id)}, v.body()...)...)
-}
-
 func valueOk(b []byte) bool {
 	var v cbor.Value
 	_, err := cbor.Decode(b, &v)
@@ -308,8 +353,8 @@ func c03IdMap() map[int]any {
 }
 
 func idOp(b []byte) string { return fmt.Sprintf("id %s %s", b01(valueOk(b)), hexs(b)) }
-func sumOp(t string, valid bool, b []byte) string {
-	return fmt.Sprintf("sum %s %s %s %s", t, b01(valid), b01(valueOk(b)), hexs(b))
+func sumOp(st *sumType, valid bool, b []byte) string {
+	return fmt.Sprintf("sum %s %s %s %s", st.name, b01(valid), b01(st.vok(b)), hexs(b))
 }
 
 // top-level tags are excluded: how fxamacker treats a tagged item when the
@@ -328,16 +373,15 @@ func genC03(r *Rand, n int, tier string, emit func(string)) {
 		for _, v := range st.variants {
 			for _, hw := range c03Forms {
 				for _, iw := range []int{cW0, cW1, cW2, cW4, cW8} {
-					t := v.node()
-					if hw != cWI && !fitsW(hw, uint64(len(t.kids))) {
+					root, t := st.build(v)
+					if (hw != cWI && !fitsW(hw, uint64(len(t.kids)))) || !fitsW(iw, v.id) {
 						continue
 					}
 					t.w = hw
 					t.kids[0].w = iw
-					b := t.bytes()
-					out(sumOp(st.name, true, b))
+					out(sumOp(st, true, root.bytes()))
 					if st == sumTypes[0] || st == sumTypes[1] {
-						out(idOp(b))
+						out(idOp(t.bytes()))
 					}
 				}
 			}
@@ -398,7 +442,7 @@ func genC03(r *Rand, n int, tier string, emit func(string)) {
 			// a variant sample: random header forms at every level, sometimes mutated
 			st := sumTypes[r.Intn(len(sumTypes))]
 			v := st.variants[r.Intn(len(st.variants))]
-			t := v.node()
+			root, t := st.build(v)
 			valid := true
 			switch r.Intn(4) {
 			case 0: // top-level only
@@ -408,7 +452,7 @@ func genC03(r *Rand, n int, tier string, emit func(string)) {
 				}
 				t.kids[0].w = Pick(r, cwidths(t.kids[0].n)...)
 			case 1: // every level
-				t.reform(r, 1, 2, false)
+				root.reform(r, 1, 2, false)
 				valid = false
 			case 2: // another tag value (unknown / neighbouring variant) on this body
 				t.kids[0].n = uint64(Pick(r, 0, 1, 2, 3, 4, 5, 6, 7, 18, 19, 22, 23, 24, 255, 256))
@@ -419,17 +463,19 @@ func genC03(r *Rand, n int, tier string, emit func(string)) {
 				}
 				valid = false
 			default:
-				t.reform(r, 1, 3, true)
+				root.reform(r, 1, 3, true)
 				valid = false
 			}
-			b := t.bytes()
+			b := root.bytes()
 			if !valid && r.Chance(1, 3) {
 				b = mutateBytes(r, b)
 			}
 			if c03Admissible(b) {
-				out(sumOp(st.name, valid, b))
+				out(sumOp(st, valid, b))
 				if r.Chance(1, 3) {
-					out(idOp(b))
+					if sub, ok := g10aNav(b, st.path); ok && c03Admissible(sub) {
+						out(idOp(sub))
+					}
 				}
 			}
 		}
@@ -467,7 +513,7 @@ func runC03(op string) string {
 		}
 		st := sumTypeByName(f[1])
 		b, ok := unhex(f[4])
-		if st == nil || !ok || b01(valueOk(b)) != f[3] {
+		if st == nil || !ok || b01(st.vok(b)) != f[3] {
 			return "bad-op"
 		}
 		lab, err := st.decode(b)
